@@ -644,6 +644,10 @@ fn check_mutable_place(
                 }
                 object
             }
+            // The members of a constant buffer are declared without const but can not be written
+            ir::Expression::ConstantVariable(_) => {
+                return Err(TyperError::MutableRequired(location));
+            }
             _ => return Ok(()),
         };
     }
